@@ -57,6 +57,17 @@ def nontrivial(trace):
     return has_cb and has_op
 
 
+def wheel_has_duplicate_counter(trace):
+    """a WHEEL dump (tag 14) in which two entries carry the same counter (the state finding F5 leaves behind)"""
+    for l in trace:
+        ws = l.split()
+        if ws and ws[0] == "14":
+            ctrs = [int(w) >> 64 for w in ws[1:]]
+            if len(set(ctrs)) != len(ctrs):
+                return True
+    return False
+
+
 def run_seq_check(prop, tier, seed, profiles, oracle, n_quick, n_thorough, assumptions,
                   corpus=("seq/*.scn",), known_classifier=None, extra_front=None, stage_of=None):
     """profiles: list of (weight, profile dict). oracle(scen_text, impl_trace) -> list of failure strings.
@@ -91,11 +102,17 @@ def run_seq_check(prop, tier, seed, profiles, oracle, n_quick, n_thorough, assum
     by_id = {scen_id(t): t for t in scens}
     res, err = seqlib.run_scenarios(scens)
     failures, diverged = [], []
+    after_f5 = 0
     hashes = set()
     opcount = collections.Counter()
     for sid, (impl, model) in res.items():
         text = by_id.get(sid, "")
         d = seqlib.first_diff(impl, model)
+        if d and wheel_has_duplicate_counter(impl[:d[0]]):
+            # finding F5 has already happened in this scenario (two wheel entries carry one counter): which of them a later cancel() finds
+            # on top of the BinaryHeap depends on its tie order for equal deadlines, which the environment model does not predict
+            after_f5 += 1
+            d = None
         if d:
             diverged.append((sid, d))
         if nontrivial(impl):
@@ -110,6 +127,7 @@ def run_seq_check(prop, tier, seed, profiles, oracle, n_quick, n_thorough, assum
             failures.append((sid, f))
         # the oracle must also accept the model's own trace (theorem side); a failure there is an oracle/model problem
     missing = [sid for sid in by_id if sid not in res]
+    chk.cov["divergences_not_counted_after_F5_duplicates"] = after_f5
     prev = chk.cov.get("first_stage", {})
     chk.cov.update({
         "evaluations": len(scens) + int(prev.get("evaluations", 0)),
